@@ -100,6 +100,12 @@ func (s *PScn) simulate(o *POut) *simOut {
 					sg.body += fmt.Sprintf("var _%s_%s_%d = 1\n", g.Name, typ, idx)
 				case 'x':
 					sg.body += "func {\n"
+				case 'm':
+					sg.body += "// map body\n"
+				case 'b':
+					if len(s.Custom[key]) > 0 {
+						sg.body += "// custom body\n"
+					}
 				}
 				if len(code) > 2 {
 					switch code[2] {
